@@ -30,7 +30,7 @@ func (e *env) clone() *env {
 	}
 	return n
 }
-func (e *env) push()              { e.scopes = append(e.scopes, map[string]*binding{}) }
+func (e *env) push()               { e.scopes = append(e.scopes, map[string]*binding{}) }
 func (e *env) truncate(d int) *env { c := e.clone(); c.scopes = c.scopes[:d]; return c }
 func (e *env) lookup(name string) *binding {
 	for i := len(e.scopes) - 1; i >= 0; i-- {
@@ -458,7 +458,9 @@ func (tr *fnTr) ifStmt(s *ast.IfStmt, after cont) (string, error) {
 				return pre + body, err
 			}
 			yes, err := tr.withPath(func(o string) string { return "implb " + c.s + " (" + o + ")" },
-				func() (string, error) { return tr.branch(func() (string, error) { return tr.block(s.Body.List, after) }) })
+				func() (string, error) {
+					return tr.branch(func() (string, error) { return tr.block(s.Body.List, after) })
+				})
 			if err != nil {
 				return "", err
 			}
